@@ -13,7 +13,7 @@ TECHNIQUE = 'Lean 4: stream theorems (no layout token is handed out, any layout 
 LEAN_TARGET = "CxxModel.Props.C09"
 THEOREMS = ["Cxx.C09_discard_sets_are_layout", "Cxx.C09_popSignificant_skips_layout", "Cxx.C09_popSignificant_not_layout", "Cxx.C09_next_ignores_layout_prefix",
             "Cxx.C09_layout_sim", "Cxx.C09_parser_layout", "Cxx.C09_same_callbacks", "Cxx.C09_prelexed_locations_irrelevant", "Cxx.rbnd_bisim", "Cxx.interp_flag",
-            "Cxx.discard_sets_are_layout", "Cxx.C09_layout_in_buffer_invisible", "Cxx.C09_yields_respects_layout"]
+            "Cxx.discard_sets_are_layout", "Cxx.C09_layout_in_buffer_invisible", "Cxx.C09_yields_respects_layout", "Cxx.C09_trailing_scan_keeps_line_ends", "Cxx.C09_trailing_scans_keep_line_ends", "Cxx.C09_newline_reads_unaffected_by_trailing_scan", "Cxx.doxAfterScan_nlSig"]
 ANCHORS = ["lexer.py:", "parser.py:CxxParser._process_pragma_directive", "parser.py:CxxParser._process_include_directive", "lex.py:Lexer.token",
            "parser.py:CxxParser.parse", "parser.py:CxxParser._parse_template", "parser.py:CxxParser._parse_template_decl", "parser.py:CxxParser._parse_cv_ptr_or_fn"]
 RULE = ("every token gap (quick: a sample of gaps) of every valid input without documentation comments (test corpus, generated "
@@ -21,6 +21,7 @@ RULE = ("every token gap (quick: a sample of gaps) of every valid input without 
         "multi-line comments, backslash-newline and concatenations); result = full callback stream without line numbers; "
         "non-trivial = gap between two tokens of one declaration")
 CARRIED_BY = {
+    "the trailing-comment scan keeps every line end (the statement the repair 9b2dc7f makes true): get_doxygen_after() removes comment tokens only; what a newline-sensitive read (token_newline_eof_ok, used by #pragma / #include handling) sees of the buffer is unchanged, for any number of scans in a row; after the scan that read returns exactly what it would have returned before": "theorems C09_trailing_scan_keeps_line_ends, C09_trailing_scans_keep_line_ends, C09_newline_reads_unaffected_by_trailing_scan (Theorems/LineEnds.lean: nlSigOf, doxAfterScan_nlSig, NlSigEq, tokenNewlineEofOk_nlSigEq)",
     "layout tokens waiting in the line buffer are invisible to token_eof_ok; stream states that differ only in them yield the same token sequences": "theorems C09_layout_in_buffer_invisible, C09_yields_respects_layout",
     "the token-stream operations never hand out layout tokens and skip any layout prefix": "theorems C09_popSignificant_skips_layout, C09_next_ignores_layout_prefix, C09_discard_sets_are_layout (regenerated sets)",
     "the parser observes the text only through the stream operations: stream states no operation can tell apart give the same callbacks, payloads, result and parser state for every client program": "theorem C09_layout_sim (generic, bisimulation argument) + C09_parser_layout / C09_same_callbacks (instance at the parser model); concrete bisimulation: C09_prelexed_locations_irrelevant",
